@@ -155,7 +155,7 @@ class QResult:
         self.divisors = 0
 
 
-_TOK = re.compile(r'\|[^|]+\||[A-Za-z_][A-Za-z0-9_.$#!@:\[\]]*')
+_TOK = re.compile(r'\|[^|]+\||[^\s()|]+')
 
 
 def slice_forms(forms):
